@@ -60,7 +60,8 @@ func Harness_C14_RoundTrip() {
 	var spans []span
 	for i := 0; i < nf; i++ {
 		var f poly.Feature
-		f.Name = vBytes(2, c14IDAlphabet())
+		// a seqid may begin with a single '#': only "##" opens a directive
+		f.Name = vBytes(1, c14IDAlphabet()+"#") + vBytes(1, c14IDAlphabet())
 		f.Source = vBytes(2, c14Text())
 		f.Type = vBytes(1, c14Text()) + "x"
 		f.Score = vBytes(1, c14Text())
